@@ -27,7 +27,8 @@ ID = "C10"
 PROPS = "Props/C10.v"
 EXTRACT = "extract/ExC10.v"
 OBLIGATION = "merkle-history"
-THEOREMS = ["C10_inv_init", "C10_inv_step", "C10_reachable", "C10_no_stale", "C10_swhid_fresh", "C10_path_ops_total",
+THEOREMS = ["C10_inv_init", "C10_inv_step", "C10_reachable", "C10_no_stale", "C10_swhid_fresh", "C10_eq_is_pure",
+            "C10_path_ops_total",
             "C10_chain_any_depth", "C10_chain_top_ops", "C10_acyclic_equiv", "C10_acyclic_no_self_reach", "C10_force_restores", "C10_inv_split",
             "C10_write_force_fresh", "C10_write_force_satisfiable", "C10_fresh_unique",
             "C10_delete_keeps_other_parent", "C10_no_stale_refuted_old_remove",
@@ -41,7 +42,12 @@ RULE = ("chains of 150, 300, 450 nested nodes (must agree exactly with the model
         "equal parents, replace in place, delete then re-attach, nested path keys 3 levels deep, forced update "
         "inside a diamond, reads before/after each mutation, generic nodes whose hash is the falsy b'', a child "
         "replaced by a different but structurally equal node, an entry replaced by a leaf with the same bytes and "
-        "another mode); the derived identifier swhid() (op I) is read like hash / entries / to_model / collect, and "
+        "another mode, the same child set twice under one name); three worlds: generic, from_disk, and mixed (generic "
+        "and on-disk nodes in one history: a Directory must refuse a generic child); further read routes: iter_tree "
+        "with dedup on/off (op T), get_data (op A), the three spellings of a hash read, == / != of nodes whose "
+        "hashes may not be computed (op Q); update() given another node as the mapping (op V) or an empty one; "
+        "Directory keys b'', b'/', leading / trailing / doubled slashes, and keys that are not bytes (op K: ValueError, "
+        "nothing changes); entry lists are compared in order; the derived identifier swhid() (op I) is read like hash / entries / to_model / collect, and "
         "after half of the mutations ONE of these reads is issued first, on the mutated node, an ancestor or a "
         "root, so that no read heals what another would have shown stale; failing operations (missing names, "
         "paths through leaves, assignments under a Content, updates of leaves) are issued after collects and must "
@@ -53,11 +59,19 @@ RULE = ("chains of 150, 300, 450 nested nodes (must agree exactly with the model
         "creating a cycle; non-trivial = at least "
         "one successful mutation below a node that was read before and has >= 2 parents or height >= 2; "
         "distinct = distinct request line")
-TRUSTED = ["Python dict semantics as modelled in model/Merkle.v (insertion order, replace keeps position, "
+TRUSTED = ["macro operations are unfolded for the model by the harness: iter_tree -> a hash read of its root (the state "
+           "effect) with the yielded sequence checked against a from-scratch pre-order; get_data of a Directory -> hash "
+           "read + entries; update(node) -> update(its children); a non-bytes key on a Directory -> expected ValueError",
+           "Python dict semantics as modelled in model/Merkle.v (insertion order, replace keeps position, "
            "update), list.append / identity scan of `parents`, set() hashing a node through __hash__ -> .hash",
            "compute_hash reads every child through `.hash` (true of the harness subclass and of "
            "Directory.to_model); NH abstracts the manifest/sha1 part (covered by C02/C06)"]
 ASSUMPTIONS = ["histories never create a cycle (trees and DAGs only)",
+               "children are changed through __setitem__ / __delitem__ / update only: the methods inherited from dict that "
+               "bypass them (pop, popitem, clear, setdefault, |=, dict.update called directly) leave hashes stale and are "
+               "outside the property; update() is given a mapping of existing nodes (an iterable of pairs or a non-node "
+               "value makes it raise AFTER it has invalidated); the list returned by Directory.entries / get_data() is the "
+               "cache itself and is not mutated by the caller",
                "compute_hash never returns None (None is the 'not computed' marker); any other value, b'' included, is fine",
                "bulk update keys are plain names (non-empty, no '/')",
                "node.data may be reassigned behind the library's back (op W): the node and everything above it are then "
@@ -72,7 +86,7 @@ DEPTH_OK = 450          # chains up to this depth must behave exactly like the m
                         # with the default recursion limit of 1000 a mutation at the bottom of a from_disk chain fails
                         # beyond ~498 levels and every other walk beyond ~985: recorded as the open known finding
                         # "chain-deeper-than-recursion-limit"
-MUT = ("S", "D", "U")
+MUT = ("S", "D", "U", "V")
 
 
 def hexs(b):
@@ -213,9 +227,10 @@ class Shadow:
             if r:
                 del self.kids[r[0]][r[1]]
                 return r[0]
-        elif t == "U":
-            if self.kind[op[1]] in "nd" and op[2]:
-                for k, c in op[2]:
+        elif t in ("U", "V"):
+            items = op[2] if t == "U" else op[3]
+            if self.kind[op[1]] in "nd" and items:
+                for k, c in items:
                     self.kids[op[1]][bytes.fromhex(k)] = c
                 return op[1]
         return None
@@ -228,11 +243,20 @@ class Shadow:
             return True
         if t == "N":
             return n - self.nchain < 12
+        if t == "K":
+            return 0 <= op[2] < n and self.kind[op[2]] == "d" and 0 <= op[4] < n
         if not 0 <= op[1] < n or (t == "S" and not 0 <= op[3] < n):
             return False
         if t == "S":
             r = self.set_target(op[1], bytes.fromhex(op[2]), op[3])
             return r is None or r[0] not in self.reach(op[3])
+        if t == "Q":
+            return 0 <= op[2] < n
+        if t == "V":
+            if not 0 <= op[2] < n or [[k.hex(), c] for k, c in self.kids[op[2]].items()] != [list(i) for i in op[3]]:
+                return False
+            op = ["U", op[1], op[3]]
+            t = "U"
         if t == "U":
             if self.kind[op[1]] in "lc":
                 return True
@@ -335,6 +359,10 @@ def scenario(rng, world, which):
                       ["C", root, H(b"a/zz")]]
         ops += [rng.choice(fails) for _ in range(rng.choice([1, 1, 2, 3]))]
         ops += [["L", rng.choice([root, root, p1])], ["H", root], ["L", root]]
+    elif which == 14:   # the same child set twice under one name; a replaced child keeps a link to its old parent
+        ops += [["S", p1, x, c], ["S", p1, x, c], ["S", root, a, p1], ["S", root, b, p2], ["H", root], ["Q", p1, p2],
+                ["S", p2, x, c], ["Q", p1, p2], ["T", root, 1], ["T", root, 0], ["D", p1, x], ["H", root], ["S", c, z, y], ["H", root],
+                ["S", p2, x, y], ["S", c, a, y], ["H", root], ["T", root, 1], ["L", root], ["V", p1, p2, [[x, y]]], ["H", root]]
     elif which == 6:    # collect / mutate / collect
         ops += [["S", p1, x, c], ["S", p2, x, c], ["S", root, a, p1], ["S", root, b, p2], ["L", root], ["L", root],
                 ["S", c, z, y], ["L", root], ["R", p1], ["L", root]]
@@ -342,7 +370,7 @@ def scenario(rng, world, which):
 
 
 def write_data_for(rng, world, kind):
-    if world == "generic":
+    if world == "generic" or kind in "nl":
         return H(rng.choice([b"x", b"y", b"w", b"w2", b"z"]))
     if kind == "d":
         return H(rng.choice([b"", b"q", b"w"]))
@@ -355,15 +383,17 @@ def rand_key(rng, world, sh, p):
         parts = [rng.choice(KEYS) for _ in range(rng.choice([2, 2, 3, 4]))]
         return b"/".join(parts)
     if r < 0.40:
-        return rng.choice([b"", b"a/", b"/a", b"a//b", b"a\x00", b"zz", b"a/zz"])
+        return rng.choice([b"", b"a/", b"/a", b"a//b", b"a\x00", b"zz", b"a/zz", b"/", b"//", b"a/b/", b"/a/b", b"a/./b"])
     return rng.choice(KEYS)
 
 
 def rand_op(rng, world, sh, w):
     n = len(sh.kind)
-    kinds = ["N", "S", "D", "U", "G", "C", "H", "F", "E", "M", "L", "R", "W", "I"]
+    kinds = ["N", "S", "D", "U", "G", "C", "H", "F", "E", "M", "L", "R", "W", "I", "T", "A", "Q", "V", "K"]
     t = rng.choices(kinds, weights=[w.get(k, 0) for k in kinds])[0]
     if n == 0 or t == "N":
+        if world == "mixed":
+            world = rng.choice(["generic", "disk"])
         if world == "generic":
             return ["N", rng.choice("nnnl"), H(rng.choice([b"x", b"x", b"x", b"y", b"z", b"z"]))]
         if rng.random() < 0.6:
@@ -396,6 +426,18 @@ def rand_op(rng, world, sh, w):
         return [t, rng.choice(dirs) if dirs and rng.random() < 0.95 else anyn]
     if t == "W":
         return ["W", anyn, write_data_for(rng, world, sh.kind[anyn])]
+    if t == "T":
+        return ["T", anyn, rng.choice([1, 1, 0])]                    # iter_tree(dedup=...)
+    if t == "Q":
+        return ["Q", anyn, rng.randrange(n)]                         # a == b, a != b
+    if t == "V":                                                     # p.update(q): another node as the mapping
+        q = rng.randrange(n)
+        return ["V", p, q, [[H(k), c] for k, c in sh.kids[q].items()]]
+    if t == "K":                                                     # a key that is not bytes, on a Directory
+        dirs = [i for i in range(n) if sh.kind[i] == "d"]
+        if not dirs:
+            return ["H", anyn]
+        return ["K", rng.choice("GSD"), rng.choice(dirs), rng.choice(["str", "int", "none", "bytearray"]), rng.randrange(n)]
     if t in ("F", "L") and sh.written and rng.random() < (0.7 if t == "F" else 0.4):
         # a forced update (or a collect) at a node dominating a written node
         dom = sh.dominators(rng.choice(sorted(sh.written)))
@@ -405,7 +447,7 @@ def rand_op(rng, world, sh, w):
 
 
 WEIGHTS_C10 = {"N": 3, "S": 8, "D": 4, "U": 2, "G": 1, "C": 1, "H": 5, "F": 2.5, "E": 1, "M": 1, "L": 1.5, "R": 0.5, "W": 1.5,
-               "I": 2.5}
+               "I": 2.5, "T": 1, "A": 0.8, "Q": 0.8, "V": 0.6, "K": 0.5}
 
 
 def first_read(rng, world, sh, changed):
@@ -416,10 +458,10 @@ def first_read(rng, world, sh, changed):
     roots = [a for a in above if sh.nparents(a) == 0] or above
     n = rng.choice([changed, rng.choice(above), rng.choice(roots)])
     if world == "disk":
-        t = rng.choice(["I", "I", "H", "L"] + (["E", "M"] if sh.kind[n] == "d" else []))
+        t = rng.choice(["I", "I", "H", "L", "T"] + (["E", "M", "A"] if sh.kind[n] == "d" else []))
     else:
-        t = rng.choice(["H", "H", "L", "I"])
-    return [t, n]
+        t = rng.choice(["H", "H", "L", "T", "I"])
+    return [t, n] if t != "T" else ["T", n, rng.choice([0, 1])]
 
 
 def failing_op(rng, world, sh):
@@ -450,11 +492,12 @@ def failing_op(rng, world, sh):
     return None
 
 
-def gen_case(rng, world, nops, weights, nscen=14, readall=None):
+def gen_case(rng, world, nops, weights, nscen=15, readall=None):
     sh = Shadow()
     ops = []
+    flav = world if world != "mixed" else rng.choice(["generic", "disk"])     # scenario / helper flavour
     if rng.random() < 0.6:
-        for op in scenario(rng, world, rng.randrange(nscen)):
+        for op in scenario(rng, flav, rng.randrange(nscen)):
             if sh.safe(op):
                 sh.apply(op)
                 ops.append(op)
@@ -473,10 +516,10 @@ def gen_case(rng, world, nops, weights, nscen=14, readall=None):
             if op[0] == "W":
                 changed = op[1]
             if changed is not None and rng.random() < 0.5:
-                ops.append(first_read(rng, world, sh, changed))
+                ops.append(first_read(rng, flav, sh, changed))
             if op[0] == "L" and rng.random() < 0.3:
                 for _ in range(rng.choice([1, 1, 2])):
-                    f = failing_op(rng, world, sh)
+                    f = failing_op(rng, flav, sh)
                     if f:
                         sh.apply(f)          # a no-op on the shadow: the operation fails
                         ops.append(f)
@@ -485,7 +528,7 @@ def gen_case(rng, world, nops, weights, nscen=14, readall=None):
         readall = rng.random() < 0.18
     if readall:
         full, cnt = [], 0
-        first = rng.choice(["H", "H", "I", "I", "M", "E"]) if world == "disk" else "H"
+        first = rng.choice(["H", "H", "I", "I", "M", "E"]) if world != "generic" else "H"
         kinds = []
         for op in ops:
             full.append(op)
@@ -494,7 +537,7 @@ def gen_case(rng, world, nops, weights, nscen=14, readall=None):
                 kinds.append(op[1])
             if op[0] != "H":
                 for i in range(cnt):
-                    if first == "I" or (first in "ME" and kinds[i] == "d"):
+                    if (first == "I" and kinds[i] in "dc") or (first in "ME" and kinds[i] == "d"):
                         full.append([first, i])
                     full.append(["H", i])
         ops = full
@@ -545,11 +588,11 @@ def deep_cases(rng, tier):
     return cases
 
 
-def gen(rng, tier, weights=WEIGHTS_C10, nscen=14):
+def gen(rng, tier, weights=WEIGHTS_C10, nscen=15):
     n_cases = 1000 if tier == "quick" else 30000
     cases = deep_cases(rng, tier)
     for k in range(n_cases):
-        world = "generic" if k % 2 == 0 else "disk"
+        world = "mixed" if k % 10 == 9 else "generic" if k % 2 == 0 else "disk"
         nops = rng.randrange(5, 61)
         cases.append(gen_case(rng, world, nops, weights, nscen))
     return cases
@@ -637,7 +680,7 @@ def classes():
             __slots__ = []
 
             def compute_hash(self):
-                return nh(self.data, [(name, child.data, child.hash) for name, child in self.items()])
+                return nh(self.data, [(name, mdata(child), child.hash) for name, child in self.items()])
 
         class GLeaf(MerkleLeaf):
             __slots__ = []
@@ -708,18 +751,25 @@ def _prefill(node):
     """memoise the from-scratch values of everything below `node`, children first, WITHOUT recursion: the structures
     may be deeper than the interpreter's recursion limit (which is never raised around library calls)"""
     stack = [(node, False)]
+    opened = set()          # a cycle (never generated; a defective implementation may let one in) must not hang the harness
     while stack:
         x, expanded = stack.pop()
         if ("m", id(x)) in _MEMO:
             continue
         if expanded:
-            _MEMO[("m", id(x))] = nh(mdata(x), [(name, mdata(ch), _MEMO[("m", id(ch))]) for name, ch in dict.items(x)])
+            _MEMO[("m", id(x))] = nh(mdata(x), [(name, mdata(ch), _MEMO.get(("m", id(ch)), b"<cycle>"))
+                                               for name, ch in dict.items(x)])
             from_disk, model = _mods()
             if isinstance(x, from_disk.Directory):
                 _MEMO[("r", id(x))] = model.Directory(entries=tuple(scratch_entries(x))).id
-        else:
+            elif not isinstance(x, from_disk.Content):
+                _MEMO[("r", id(x))] = nh(mdata(x), [(name, mdata(ch), _MEMO.get(("r", id(ch)), ch.data.get("sha1_git", b"<cycle>")
+                                                                   if isinstance(ch.data, dict) else b"<cycle>"))
+                                                     for name, ch in dict.items(x)])
+        elif id(x) not in opened:
+            opened.add(id(x))
             stack.append((x, True))
-            stack.extend((ch, False) for ch in dict.values(x) if ("m", id(ch)) not in _MEMO)
+            stack.extend((ch, False) for ch in dict.values(x) if ("m", id(ch)) not in _MEMO and id(ch) not in opened)
 
 
 def scratch_m(node):
@@ -746,7 +796,8 @@ def scratch_real(node):
     if isinstance(node, from_disk.Directory):
         _prefill(node)
         return _MEMO[("r", id(node))]
-    return scratch_m(node)
+    _prefill(node)
+    return _MEMO[("r", id(node))]
 
 
 def scratch_entries(node):
@@ -828,6 +879,66 @@ def impl(c):
                 tok = "h%d" % handle[id(nodes[op[1]][bytes.fromhex(op[2])])]
             elif t == "C":
                 tok = "b1" if bytes.fromhex(op[2]) in nodes[op[1]] else "b0"
+            elif t == "T":
+                nd = nodes[op[1]]
+                seq = [handle[id(x)] for x in nd.iter_tree(dedup=bool(op[2]))]
+                # expected: pre-order over the dict order; with dedup a node whose (from-scratch) hash was already
+                # met is skipped together with what is below it
+                want, seen, todo = [], set(), [nd]
+                while todo:
+                    x = todo.pop()
+                    hx = scratch_real(x)
+                    if hx in seen:
+                        continue
+                    if op[2]:
+                        seen.add(hx)
+                    want.append(handle[id(x)])
+                    todo += list(dict.values(x))[::-1]
+                if id(nd) in dirty or any(id(nodes[i]) in dirty for i in want):
+                    loose.append(idx)
+                elif seq != want:
+                    bad.append("op %d %s: iter_tree yields nodes %s, the current structure gives %s" % (idx, op, seq, want))
+                tok = "x" + hexs(nd.hash if generic else scratch_m(nd))
+            elif t == "A":
+                nd = nodes[op[1]]
+                gd = nd.get_data()
+                if isinstance(nd, from_disk.Directory):
+                    excused = id(nd) in dirty
+                    if excused:
+                        loose.append(idx)
+                    got = [(e["name"], e["type"], int(e["perms"]), e["target"]) for e in gd["entries"]]
+                    want = [(e.name, e.type, int(e.perms), e.target)
+                            for e in sorted(scratch_entries(nd), key=lambda e: e.name + (b"/" if e.type == "dir" else b""))]
+                    if not excused and (gd["id"] != scratch_real(nd) or got != want):
+                        bad.append("op %d %s: get_data() of node %d is not the from-scratch id / entry list" % (idx, op, op[1]))
+                    tok = "ax" + hexs(scratch_m(nd)) + "|e" + "+".join(
+                        sorted(hexs(name) + ":" + hexs(scratch_m(ch)) for name, ch in dict.items(nd)))
+                else:
+                    if gd is not nd.data:
+                        bad.append("op %d %s: get_data() of a %s is not its data" % (idx, op, type(nd).__name__))
+                    tok = "a"
+            elif t == "Q":
+                a, b = nodes[op[1]], nodes[op[2]]
+                eq, ne = (a == b), (a != b)
+                if eq == ne:
+                    bad.append("op %d %s: == and != agree" % (idx, op))
+                tok = "b1" if eq else "b0"
+            elif t == "V":
+                src = nodes[op[2]]
+                if [[k.hex(), handle[id(ch)]] for k, ch in dict.items(src)] != [list(i) for i in op[3]]:
+                    tok = "?stale-macro"
+                else:
+                    nodes[op[1]].update(src)
+                    tok = "u"
+            elif t == "K":
+                key = {"str": "a", "int": 1, "none": None, "bytearray": bytearray(b"a")}[op[3]]
+                if op[1] == "G":
+                    nodes[op[2]][key]
+                elif op[1] == "S":
+                    nodes[op[2]][key] = nodes[op[4]]
+                else:
+                    del nodes[op[2]][key]
+                tok = "u"
             elif t == "W":
                 write_data(nodes[op[1]], bytes.fromhex(op[2]))
                 dirty.add(id(nodes[op[1]]))
@@ -835,7 +946,10 @@ def impl(c):
                 tok = "u"
             elif t in ("H", "F"):
                 nd = nodes[op[1]]
-                h = nd.hash if t == "H" else nd.update_hash(force=True)
+                if t == "F":
+                    h = nd.update_hash(force=True)
+                else:       # the three spellings of a plain read
+                    h = (nd.hash, nd.update_hash(), nd.update_hash(force=False))[idx % 3]
                 if t == "F":
                     below = {id(r) for r in reach_impl(nd)}
                     above = up_closure(nodes, {id(nd)})
@@ -869,13 +983,15 @@ def impl(c):
                 if excused:
                     loose.append(idx)
                 if t == "E":
-                    got = sorted((e["name"], e["type"], int(e["perms"]), e["target"]) for e in nd.entries)
+                    got = [(e["name"], e["type"], int(e["perms"]), e["target"]) for e in nd.entries]
                 else:
                     mo = nd.to_model()
-                    got = sorted((e.name, e.type, int(e.perms), e.target) for e in mo.entries)
+                    got = [(e.name, e.type, int(e.perms), e.target) for e in mo.entries]
                     if mo.id != scratch_real(nd) and not excused:
                         bad.append("op %d %s: to_model().id is stale" % (idx, op))
-                want = sorted((e.name, e.type, int(e.perms), e.target) for e in scratch_entries(nd))
+                # the list is handed out in git tree order (the library's own sort key, which C02 is about)
+                want = [(e.name, e.type, int(e.perms), e.target)
+                        for e in sorted(scratch_entries(nd), key=lambda e: e.name + (b"/" if e.type == "dir" else b""))]
                 if got != want and not excused:
                     bad.append("op %d %s: entries differ from the from-scratch entries: %r vs %r" % (idx, op, got, want))
                 tok = "e" + "+".join(sorted(hexs(name) + ":" + hexs(scratch_m(ch)) for name, ch in dict.items(nd)))
@@ -973,6 +1089,8 @@ def enc_op(op):
         return "S,%d,%s,%d" % (op[1], op[2] or ".", op[3])
     if t in ("D", "G", "C", "W"):
         return "%s,%d,%s" % (t, op[1], op[2] or ".")
+    if t == "Q":
+        return "Q,%d,%d" % (op[1], op[2])
     if t == "U":
         return "U,%d,%s" % (op[1], "+".join("%s=%d" % (k or ".", ch) for k, ch in op[2]) or ".")
     return "%s,%d" % (t, op[1])
@@ -981,8 +1099,20 @@ def enc_op(op):
 def expand(c):
     """the primitive operations of a history (chain macro ops unfolded), with the number of primitives per op"""
     prim, sizes, n = [], [], 0
+    kinds = []
     for op in c["ops"]:
-        if op[0] == "X":
+        if op[0] == "N":
+            kinds.append(op[1])
+        if op[0] == "T":
+            sub = [["H", op[1]]]
+        elif op[0] == "A":
+            sub = [["H", op[1]], ["E", op[1]]] if op[1] < len(kinds) and kinds[op[1]] == "d" else []
+        elif op[0] == "V":
+            sub = [["U", op[1], op[3]]]
+        elif op[0] == "K":
+            sub = []
+        elif op[0] == "X":
+            kinds += [op[1]] * op[2]
             _, kind, depth, data, direction = op
             sub = [["N", kind, data] for _ in range(depth)]
             links = [["S", n + i, H(CHAIN_KEY), n + i + 1] for i in range(depth - 1)]
@@ -995,6 +1125,9 @@ def expand(c):
         prim += sub
         sizes.append(len(sub))
     return prim, sizes
+
+
+MACRO = ("X", "T", "A", "V", "K")
 
 
 def requests(c):
@@ -1023,8 +1156,8 @@ def model(c, resp):
     r = resp[0]
     if not r.startswith("ok "):
         return {"error": r}
-    toks = [canon_model_tok(t) for t in r[3:].split(";")]
-    if not max_chain(c):
+    toks = [canon_model_tok(t) for t in r[3:].split(";")] if len(r) > 3 else []
+    if not any(op[0] in MACRO for op in c["ops"]):
         return {"outs": toks}
     # fold the answers to the primitives of a chain macro op into one token
     _, sizes = expand(c)
@@ -1036,6 +1169,10 @@ def model(c, resp):
             hs = [t for t in part if t.startswith("h")]
             ok = len(hs) == op[2] and all(t == "u" for t in part[op[2]:])
             outs.append("X%s-%s" % (hs[0][1:], hs[-1][1:]) if ok and hs else "!expansion:" + ",".join(sorted(set(part)))[:80])
+        elif op[0] == "K":
+            outs.append("!value")                  # a Directory refuses a key that is not bytes, and nothing changes
+        elif op[0] == "A":
+            outs.append("a" + "|".join(part))      # "a" alone for the classes whose get_data() is just .data
         else:
             outs.append(part[0] if part else "?")
     return {"outs": outs}
